@@ -246,6 +246,9 @@ def run_cases(cases, wd, tag):
                 rows.append(json.loads(line))
     if len(rows) != len(cases):
         raise core.ToolError("harness recon answered %d of %d cases (%s)" % (len(rows), len(cases), tag))
+    for r in rows:
+        if str(r.get("panic", "")).startswith("HARNESS:"):
+            raise core.ToolError("harness recon could not interpret a case: %s" % r["panic"])
     return rows
 
 
@@ -588,6 +591,16 @@ def run(tier, out):
             action_coverage={a: {"distinct": d, "taken": t} for a, (d, t) in sorted(st.cov.items())},
             actions_never_taken=never, parser_model_predictions=pred_n, model_drift=drift, exhaustive=False,
             checker_cmd="tlc Gen_Recon / Gen_ReconChunk / MC_ReconChunk (INVARIANTS %s) + h_core recon + tlc MC_Recon (LawSpec)" % " ".join(CHUNK_INVS[:-1]))
+    if not out.violations:
+        # scratch hygiene: the case / row files are large and reproducible from the seed
+        for f in os.listdir(wd):
+            if f.endswith(".ndjson"):
+                os.remove(os.path.join(wd, f))
+        for d in os.listdir(wd):
+            o = os.path.join(wd, d, "Gen_Recon.out")
+            for o in (os.path.join(wd, d, m + ".out") for m in ("Gen_Recon", "Gen_ReconChunk", "MC_ReconChunk")):
+                if os.path.exists(o) and os.path.getsize(o) > (1 << 20):
+                    os.remove(o)
     out.assumptions += [
         "leaves are concretised from finite boundary pools (harness); TLC enumerates structure, not magnitudes or Unicode",
         "non-finite floats are outside the laws (the statement restricts floats to finite values); they are still run for panics",
